@@ -7,6 +7,10 @@ type nat =
 | O
 | S of nat
 
+type ('a, 'b) sum =
+| Inl of 'a
+| Inr of 'b
+
 val fst : ('a1 * 'a2) -> 'a1
 
 val snd : ('a1 * 'a2) -> 'a2
@@ -42,6 +46,8 @@ module Nat :
 val hd : 'a1 -> 'a1 list -> 'a1
 
 val nth : nat -> 'a1 list -> 'a1 -> 'a1
+
+val nth_error : 'a1 list -> nat -> 'a1 option
 
 val last : 'a1 list -> 'a1 -> 'a1
 
@@ -130,6 +136,8 @@ module Coq_Pos :
 
   val size_nat : positive -> nat
 
+  val size : positive -> positive
+
   val compare_cont : comparison -> positive -> positive -> comparison
 
   val compare : positive -> positive -> comparison
@@ -139,6 +147,10 @@ module Coq_Pos :
   val gcdn : nat -> positive -> positive -> positive
 
   val gcd : positive -> positive -> positive
+
+  val ggcdn : nat -> positive -> positive -> positive * (positive * positive)
+
+  val ggcd : positive -> positive -> positive * (positive * positive)
 
   val iter_op : ('a1 -> 'a1 -> 'a1) -> positive -> 'a1 -> 'a1
 
@@ -171,6 +183,8 @@ module N :
 
   val pow : n -> n -> n
 
+  val log2 : n -> n
+
   val pos_div_eucl : positive -> n -> n * n
 
   val div_eucl : n -> n -> n * n
@@ -183,16 +197,36 @@ module N :
 
   val of_nat : nat -> n
 
+  val iter : n -> ('a1 -> 'a1) -> 'a1 -> 'a1
+
   val eq_dec : n -> n -> bool
  end
 
 module Z :
  sig
+  val double : z -> z
+
+  val succ_double : z -> z
+
+  val pred_double : z -> z
+
+  val pos_sub : positive -> positive -> z
+
+  val add : z -> z -> z
+
   val opp : z -> z
+
+  val sub : z -> z -> z
+
+  val mul : z -> z -> z
 
   val compare : z -> z -> comparison
 
+  val sgn : z -> z
+
   val leb : z -> z -> bool
+
+  val ltb : z -> z -> bool
 
   val eqb : z -> z -> bool
 
@@ -200,10 +234,44 @@ module Z :
 
   val abs_N : z -> n
 
+  val to_N : z -> n
+
   val of_N : n -> z
 
+  val to_pos : z -> positive
+
+  val pos_div_eucl : positive -> z -> z * z
+
+  val div_eucl : z -> z -> z * z
+
+  val div : z -> z -> z
+
   val gcd : z -> z -> z
+
+  val ggcd : z -> z -> z * (z * z)
  end
+
+val zeq_bool : z -> z -> bool
+
+type q = { qnum : z; qden : positive }
+
+val inject_Z : z -> q
+
+val qcompare : q -> q -> comparison
+
+val qeq_bool : q -> q -> bool
+
+val qle_bool : q -> q -> bool
+
+val qplus : q -> q -> q
+
+val qmult : q -> q -> q
+
+val qopp : q -> q
+
+val qinv : q -> q
+
+val qred : q -> q
 
 val b : n
 
@@ -300,6 +368,10 @@ val to_int : big -> n
 type num = { up : big; down : big }
 
 val nan : num
+
+val nzero : num
+
+val n_one : num
 
 val from_num : z -> num
 
@@ -540,3 +612,237 @@ val dstep : dst -> n -> n list -> dst
 val dscan : n list -> dst -> dst
 
 val decompose : n list -> cst
+
+type xcode = { xty : n; xhc : n; xdc : n; xac : n; xar : area }
+
+val xcode_of_ucode : ucode -> xcode
+
+type errkind =
+| EEnc of n
+| EIo
+
+type skind =
+| SUnopt
+| SOpt of n
+
+type state = { skind_ : skind; stacks : (n * num list) list; cur : n;
+               points : (n * n) list; latest : n option;
+               inp : n list option list; outb : n list; errb : n list }
+
+val state0 : skind -> n list option list -> state
+
+type 'a res0 =
+| ROk of 'a * state
+| RExit of n * state
+| RErr of errkind * state
+
+type 'a m = state -> 'a res0
+
+val ret : 'a1 -> 'a1 m
+
+val bind : 'a1 m -> ('a1 -> 'a2 m) -> 'a2 m
+
+val alist_get : (n * 'a1) list -> n -> 'a1 option
+
+val alist_set : (n * 'a1) list -> n -> 'a1 -> (n * 'a1) list
+
+val get_stack : state -> n -> num list
+
+val set_stack : state -> n -> num list -> state
+
+val in_range : state -> n -> bool
+
+val push_stack : n -> num -> unit m
+
+val pop_stack : n -> num m
+
+val is_scalar : n -> bool
+
+val num_to_unicode : num -> (n, n) sum
+
+val write_out : bool -> n list -> unit m
+
+val fail : errkind -> 'a1 m
+
+val exit_ : n -> 'a1 m
+
+val push_wrap : n -> num -> unit m
+
+val read_line : n list m
+
+val push_all : n -> n list -> unit m
+
+val pop_wrap : n -> num m
+
+val calc : area -> n -> num m -> n m
+
+val iterM : n -> ('a1 -> 'a1 m) -> 'a1 -> 'a1 m
+
+val set_cur : n -> unit m
+
+val get_cur : n m
+
+val body : xcode -> unit m
+
+val get_point : n -> n option m
+
+val set_point : n -> n -> unit m
+
+val set_latest : n -> unit m
+
+val get_latest : n option m
+
+val execute_one : xcode -> n -> n m
+
+type final =
+| FDone of state
+| FExit of n * state
+| FErr of errkind * state
+| FFuel of state * n
+| FPanic of state
+
+val run_pre : nat -> xcode list -> state -> n -> final
+
+val exec_loop : nat -> xcode list -> state -> n -> n -> final * nat
+
+val run_inc : nat -> xcode list -> xcode list -> state -> final
+
+val final_state : final -> state
+
+val qfloor : q -> z
+
+type value =
+| VNaN
+| VRat of q
+
+val vadd : value -> value -> value
+
+val vmul : value -> value -> value
+
+val vneg : value -> value
+
+val vrecip : value -> value
+
+val vnat : n -> value
+
+val dec_digits : nat -> n -> n list -> n list
+
+val dec_N : n -> n list
+
+val dec_Z : z -> n list
+
+val nAN_TEXT_SPEC : n list
+
+val value_text : value -> n list
+
+type serr =
+| SEnc of n
+| SIo
+
+type lstate = { stk : (n * value list) list; sel : n; labels : (n * n) list;
+                lastj : n option; input : n list option list; out : n list;
+                err : n list }
+
+val lstate0 : n list option list -> lstate
+
+val lookup : (n * 'a1) list -> n -> 'a1 option
+
+val update : (n * 'a1) list -> n -> 'a1 -> (n * 'a1) list
+
+val sget : lstate -> n -> value list
+
+val sset : lstate -> n -> value list -> lstate
+
+type 'a sres =
+| SOk of 'a * lstate
+| SExit of n * lstate
+| SErr of serr * lstate
+
+val scalar : n -> bool
+
+val spush : n -> value -> lstate -> unit sres
+
+val spop : n -> lstate -> value sres
+
+val spops : nat -> n -> lstate -> value list sres
+
+val spushes : n -> value list -> lstate -> unit sres
+
+val scommand : n -> n -> n -> lstate -> unit sres
+
+val vlt : value -> n -> bool
+
+val veq : value -> n -> bool
+
+val sarea : area -> n -> lstate -> n sres
+
+val sstep : n -> n -> n -> n -> area -> n -> lstate -> n sres
+
+type scmd = { sk : n; sn : n; sd : n; scount : n; sa : area }
+
+val scmd_of_ucode : ucode -> scmd
+
+type sfinal =
+| SDone of lstate
+| SExited of n * lstate
+| SFailed of serr * lstate
+| SRunning of lstate * n
+
+val srun : nat -> scmd list -> lstate -> n -> sfinal
+
+type fixes = { fx5 : bool; fx6 : bool; fx7 : bool }
+
+val all_fixed : fixes
+
+val pinned : fixes
+
+val chk_scan : fixes -> ucode list -> n -> n list
+
+val insert_sorted : n -> n list -> n list
+
+val sort_N : n list -> n list
+
+val assign : n list -> (n * n) list -> n -> (n * n) list * n
+
+val renum_map : fixes -> ucode list -> (n * n) list * n
+
+val renum : (n * n) list -> n -> n -> n
+
+val opt_code : (n * n) list -> n -> ucode -> xcode
+
+val bAIL : n
+
+val guard : n -> unit m
+
+val gpop : n -> num m
+
+val obody : fixes -> xcode -> unit m
+
+val oexecute_one : fixes -> xcode -> n -> (n * bool) m
+
+type ores =
+| ODone of state
+| OBail of state
+| OErr of errkind * state
+| OFuel
+| OPanic
+
+val opt_loop : nat -> fixes -> xcode list -> state -> n -> n -> n -> ores
+
+val opt_fuel : xcode list -> nat
+
+type opt_result = { ostate : state; olog : xcode list; orest : xcode list }
+
+type optimized =
+| OptOk of opt_result
+| OptErr of errkind
+| OptStuck
+
+val with_io : state -> state -> state
+
+val preexec : fixes -> state -> xcode list -> xcode list -> optimized
+
+val optimize_prog :
+  fixes -> ucode list -> n -> n list option list -> optimized
+
+val run_level : fixes -> nat -> ucode list -> n -> n list option list -> final
